@@ -54,6 +54,8 @@ class BTGen:
         self.rng = rng
         self.next_key = 1
         self.adata = []
+        self.full = set()
+        self.nonzero_targets = False
 
     def key(self):
         k = self.next_key
@@ -120,6 +122,11 @@ class BTGen:
     def weigher(self, tickers, dates):
         rng = self.rng
         k = rng.choice(["equal", "equal", "specified", "target"])
+        full = [t for t in tickers if t in self.full] if rng.random() < 0.9 else tickers
+        if k != "equal" and not full:
+            k = "equal"
+        if k != "equal":
+            tickers = full
         out = []
         if k == "equal" or not tickers:
             out.append(["weighequally"])
@@ -156,7 +163,15 @@ class BTGen:
         st += self.selector(tickers, dates)
         if rng.random() < 0.15:
             st.append(["require", "nonempty", "selected", False])
+        if rng.random() < 0.1 and tickers:
+            import re
+            pat = rng.choice(["[13579]$", "^n00[1-3]$", "n0+[2-4]", "2|4"])
+            st.append(["selectregex", pat, [t for t in range(0, 40) if re.search(pat, "n%03d" % t)]])
         st += self.weigher(tickers, dates)
+        if rng.random() < 0.12:
+            # rebalance on schedule or when out of bounds: weights first, then the gate
+            st = st[1:] + [["or", [st[0], ["outofbounds", hx(rng.choice([0.0625, 0.125, 0.5]))]]]]
+            self.nonzero_targets = True
         if rng.random() < 0.1:
             st.append(["closedead"])
         if rng.random() < 0.15:
@@ -166,7 +181,67 @@ class BTGen:
         return st
 
 
+def gen_fi_case(rng, name):
+    """a fixed-income backtest: coupon / hedge securities, notional targets, close and roll tables"""
+    g = BTGen(rng)
+    n = rng.randint(6, 18)
+    dates = gen_dates(rng, n)
+    nt = rng.randint(2, 5)
+    tickers = list(range(1, nt + 1))
+    classes = {t: rng.choice(["coupon", "coupon", "coupon", "fi", "sec", "hedge", "couponhedge"]) for t in tickers}
+    prices = [[t, gen_price_col(rng, n, p_nan=0.0)] for t in tickers]
+    g.full = set(tickers)
+    coupons = [[t, [hx(dy(rng, 0, 1, 16)) for _ in range(n)]] for t in tickers]
+    cost_long = [[t, [hx(dy(rng, 0, 1, 32)) for _ in range(n)]] for t in tickers] if rng.random() < 0.5 else None
+    cost_short = [[t, [hx(dy(rng, 0, 1, 32)) for _ in range(n)]] for t in tickers if rng.random() < 0.7] if rng.random() < 0.5 else None
+    kids = [["sec", t, classes[t], rng.random() < 0.85, hx(rng.choice([1.0, 1.0, 2.0, 0.5])), rng.random() < 0.3]
+            for t in tickers]
+    st = [g.scheduler(dates)]
+    if rng.random() < 0.4:
+        key = g.key()
+        sub = rng.sample(tickers, rng.randint(1, nt))
+        g.adata.append([key, ["dates", [[t, rng.choice(dates)] for t in sub]]])
+        st.append(["closeafter", key])
+    if rng.random() < 0.3 and nt >= 2:
+        key = g.key()
+        a, b = rng.sample(tickers, 2)
+        g.adata.append([key, ["roll", [[a, rng.choice(dates), b, hx(rng.choice([1.0, 0.5, 2.0]))]]]])
+        st.append(["rollafter", key])
+    sel = rng.choice(["all", "these", "types"])
+    if sel == "all":
+        st.append(["selectall", False, False])
+    elif sel == "these":
+        st.append(["selectthese", rng.sample(tickers, rng.randint(1, nt)), False, False])
+    else:
+        st.append(["selecttypes", rng.choice([["coupon"], ["fi"], ["sec", "fi"], ["coupon", "hedge"]]),
+                   rng.choice([[], ["hedge"], ["couponhedge"]])])
+    if rng.random() < 0.6:
+        st.append(["selectactive"])
+    if rng.random() < 0.5:
+        st.append(["weighequally"])
+    else:
+        sub = rng.sample(tickers, rng.randint(1, nt))
+        st.append(["weighspecified", [[t, hx(rng.choice([-0.25, 0.125, 0.25, 0.5, 1.0]))] for t in sub]])
+    if rng.random() < 0.3:
+        st.append(["scale", hx(rng.choice([0.5, -1.0, 2.0]))])
+    if rng.random() < 0.75:
+        key = g.key()
+        idx = [d for d in dates if rng.random() < 0.85] or list(dates[:1])
+        g.adata.append([key, ["frame", idx, [[0, [hx(float(rng.choice([1000, 5000, 20000, 100000]))) for _ in idx]]]]])
+        st.append(["setnotional", key])
+    st.append(["rebalance"])
+    tree = ["strat", nt + 5, True, kids, st]
+    bidoffer = [[t, [hx(dy(rng, 0, 1, 8)) for _ in range(n)]] for t in tickers] if rng.random() < 0.4 else None
+    comm = rng.choice([["none"], ["none"], ["flat", hx(1.0)], ["prop", hx(0.001953125)]])
+    return {"name": name, "dates": dates, "intpos": rng.random() < 0.3, "comm": comm, "prices": prices,
+            "bidoffer": bidoffer, "coupons": coupons, "cost_long": cost_long, "cost_short": cost_short,
+            "adata": g.adata, "capital": hx(float(rng.choice([0, 100000, 1000000]))), "tree": tree,
+            "pyseed": rng.randint(0, 1000)}
+
+
 def gen_case(rng, name):
+    if rng.random() < 0.2:
+        return gen_fi_case(rng, name)
     g = BTGen(rng)
     n = rng.randint(6, 24)
     dates = gen_dates(rng, n)
@@ -174,6 +249,7 @@ def gen_case(rng, name):
     tickers = list(range(1, nt + 1))
     prices = [[t, gen_price_col(rng, n, p_nan=(0.04 if rng.random() < 0.12 else 0.0), late=rng.random() < 0.2,
                                 zero=rng.random() < 0.06)] for t in tickers]
+    g.full = {t for t, col in prices if NAN not in col}
     next_id = [nt + 1]
 
     def nid():
